@@ -935,6 +935,20 @@ fn o_vector<T: Sc>(c: &Case, v: &mut Verdict) {
         }
         v.chk(guard(|| BaseVector::approximate_eq(&va, &va.clone(), T::zero())) == Ok(true), "equality", || "Vec approximate_eq(v, v, 0) is not true".to_string());
     }
+    // an operand that extends / truncates the other one (equal prefix): still a length mismatch
+    {
+        let mut longer = va.clone();
+        longer.push(x);
+        for (p, q, what) in [(&va, &longer, "v vs v++[x]"), (&longer, &va, "v++[x] vs v")] {
+            v.chk(guard(|| BaseVector::approximate_eq(p, q, T::of(1e30))) == Ok(false), "equality", || format!("Vec approximate_eq is not false: {}", what));
+            v.must_panic("shape_contract", &format!("Vec dot: {}", what), guard(|| BaseVector::dot(p, q)));
+            v.must_panic("shape_contract", &format!("Vec add: {}", what), guard(|| BaseVector::add(p, q)));
+            v.must_panic("shape_contract", &format!("Vec sub_mut: {}", what), guard(|| { let mut w = p.clone(); BaseVector::sub_mut(&mut w, q); w }));
+            v.must_panic("shape_contract", &format!("Vec mul: {}", what), guard(|| BaseVector::mul(p, q)));
+            v.must_panic("shape_contract", &format!("Vec div_mut: {}", what), guard(|| { let mut w = p.clone(); BaseVector::div_mut(&mut w, q); w }));
+            v.must_panic("shape_contract", &format!("Vec copy_from: {}", what), guard(|| { let mut w = p.clone(); BaseVector::copy_from(&mut w, q); w }));
+        }
+    }
     // unique, take, copy_from
     {
         let mut e = xa.clone();
@@ -1094,7 +1108,7 @@ fn search(out: &mut Out, rng: &mut Rng, thorough: bool) {
     record(out, &Case { entry: "vector".into(), f32m: false, family: "corpus".into(), a: vec![vec![1e8, 1e8 + 1.0, 1e8 + 2.0, 1e8 + 3.0]], b: vec![vec![1.0, 2.0, 3.0, 4.0]], idx: vec![3, 0, 0], nums: vec![1.5, 2.0, 0.25], ..Default::default() });
 
     let maxd = 12;
-    let scale = if thorough { 60 } else { 8 };
+    let scale = if thorough { 200 } else { 16 };
     // small shapes exhaustively for the structural oracle
     for n in 1..=(if thorough { 6 } else { 4 }) {
         for p in 1..=(if thorough { 6 } else { 4 }) {
@@ -1252,7 +1266,8 @@ fn corr_data(rng: &mut Rng, n: usize, p: usize, f32m: bool) -> (Rows, &'static s
 
 fn corr_unary<T: Sc>(k: &mut Corr, rng: &mut Rng, n: usize, p: usize) {
     let (a, _) = corr_data(rng, n, p, T::F32);
-    let m = mk::<T>(&a);
+    // degenerate shapes (no rows / no columns) are built by zeros(): from_2d_vec cannot express 0 x p
+    let m = if n == 0 || p == 0 { DenseMatrix::<T>::zeros(n, p) } else { mk::<T>(&a) };
     let la = lit_dm(&m);
     let sh = (n, p);
     let rt = rows_t::<T>(&a);
@@ -1295,13 +1310,13 @@ fn corr_unary<T: Sc>(k: &mut Corr, rng: &mut Rng, n: usize, p: usize) {
         let (r1, c1) = (rng.below(n + 2), rng.below(p + 2));
         k.put::<T>("slice", format!("c_dm (x_slice {} {} {} {} {}) {}", la, coq_n(r0), coq_n(r1), coq_n(c0), coq_n(c1), o_dm(guard(|| m.slice(r0..r1, c0..c1)))), sh);
         let divs: Vec<usize> = (1..=n * p).filter(|d| (n * p) % d == 0).collect();
-        let rn = *rng.pick(&divs);
-        let rp = if rng.chance(0.8) { n * p / rn } else { n * p / rn + 1 };
+        let rn = if divs.is_empty() { rng.below(3) } else { *rng.pick(&divs) };
+        let rp = if divs.is_empty() { if rng.bool() { 0 } else { rng.below(3) } } else if rng.chance(0.8) { n * p / rn } else { n * p / rn + 1 };
         k.put::<T>("reshape", format!("c_dm (x_reshape {} {} {}) {}", la, coq_n(rn), coq_n(rp), o_dm(guard(|| m.reshape(rn, rp)))), sh);
         for axis in 0..2u8 {
             let lim = if axis == 0 { n } else { p };
             let bad = rng.chance(0.2);
-            let idx: Vec<usize> = (0..rng.below(5)).map(|_| rng.below(if bad { lim + 1 } else { lim })).collect();
+            let idx: Vec<usize> = (0..rng.below(5)).map(|_| rng.below((if bad { lim + 1 } else { lim }).max(1))).collect();
             k.put::<T>("take", format!("c_dm (x_take {} {} {}) {}", la, coq_list_n(&idx), coq_bool(axis == 0), o_dm(guard(|| m.take(&idx, axis)))), sh);
         }
     }
@@ -1346,7 +1361,7 @@ fn corr_unary<T: Sc>(k: &mut Corr, rng: &mut Rng, n: usize, p: usize) {
         k.put::<T>("mean_var_std", format!("{c} (x_mean {la} {ax}) {} && {c} (x_var {la} {ax}) {} && {c} (x_std {la} {ax}) {}",
             o_l(guard(|| m.mean(axis))), o_l(guard(|| m.var(axis))), o_l(guard(|| m.std(axis))), c = cmp::<T>("c_l", Kind::Div), la = la, ax = ax), sh);
         let len = if axis == 0 { p } else { n };
-        let short = rng.chance(0.15);
+        let short = len > 0 && rng.chance(0.15);
         let mu: Vec<T> = (0..(if short { len - 1 } else { len + rng.below(2) })).map(|_| T::of(rng.dyadic(2, 2))).collect();
         let sd: Vec<T> = (0..len + rng.below(2)).map(|_| T::of(rng.int(1, 12) as f64 / 4.0)).collect();
         k.put::<T>("scale", format!("{} (x_scale {} {} {} {}) {}", cmp::<T>("c_dm", Kind::Div), la, lit_list(&mu), lit_list(&sd), ax,
@@ -1456,6 +1471,11 @@ fn correspondence(out: &mut Out, rng: &mut Rng, thorough: bool) {
             }
         }
     }
+    // degenerate shapes: outside the property's quantifier (1 <= rows, cols), kept as a fidelity check of the model
+    for (n, p) in [(0usize, 0usize), (0, 3), (2, 0), (0, 1), (1, 0)] {
+        corr_unary::<f64>(&mut k, rng, n, p);
+    }
+    corr_unary::<f32>(&mut k, rng, 0, 2);
     let nbin = if thorough { 700 } else { 140 };
     for i in 0..nbin {
         let (s1, s2) = gen_shape_pair(rng, maxd);
